@@ -263,6 +263,7 @@ def run_int_cfg(
     run = Run()
     run.state = state
     visits: Dict[int, int] = {}
+    range_iters: Dict[Any, Any] = {}
     node = cfg.entry
     pending_exc: Optional[ast.expr] = None
 
@@ -376,8 +377,33 @@ def run_int_cfg(
             continue
         succ = [(n, lab) for n, lab in cfg.succ[node.id] if lab != "exc"]
         if node.kind == "iter":
-            run.end = "stuck:for-loop"
-            return run
+            it = getattr(stmt, "iter", None)
+            tgt = getattr(stmt, "target", None)
+            limit = None
+            if isinstance(it, ast.Call) and isinstance(it.func, ast.Name) and it.func.id == "range" and isinstance(tgt, ast.Name):
+                try:
+                    rargs = [int_eval(a, atoms) for a in it.args]
+                    key_ = ("range", node.id)
+                    if key_ not in range_iters:
+                        range_iters[key_] = iter(range(*rargs))
+                    limit = range_iters[key_]
+                except Unevaluable:
+                    limit = None
+            if limit is None:
+                run.end = "stuck:for-loop"
+                return run
+            try:
+                state[tgt.id] = next(limit)
+                lab_wanted = "iter"
+            except StopIteration:
+                range_iters.pop(("range", node.id), None)
+                lab_wanted = "done"
+            nxt = [n for n, lab in cfg.succ[node.id] if lab == lab_wanted]
+            if not nxt:
+                run.end = "stuck"
+                return run
+            node = cfg.nodes[nxt[0]]
+            continue
         if not succ:
             run.end = "stuck"
             return run
